@@ -75,4 +75,5 @@ package types
 //@   trusted
 //@   ensures r != nil
 //@   ensures [size] KnownIdx(t) && t != BaseString ==> binsize(r) == SizeSpec(byte(t)&0x1F)
+//@   ensures [string] KnownIdx(t) && t == BaseString ==> typeis[string](r)
 //@   assigns nothing
